@@ -57,4 +57,46 @@ theorem centerTolSrc_eq (a b : R) : SrcCtl.centerTolSrc a b = centerTol a b := b
   · rfl
   · split <;> rfl
 
+/-- the two `while` loops of the wrist-singular recovery (`angle > PI`, `angle < -PI`) -/
+theorem singularCandidateSrcLoop_eq (n : Nat) (x : R) : SrcCtl.singularCandidateSrcLoop n x = loopDown n x := by
+  induction n generalizing x with
+  | zero => rfl
+  | succ n ih => simp only [SrcCtl.singularCandidateSrcLoop, loopDown, ih]
+
+theorem singularCandidateSrcLoop2_eq (n : Nat) (x : R) : SrcCtl.singularCandidateSrcLoop2 n x = loopUp n x := by
+  induction n generalizing x with
+  | zero => rfl
+  | succ n ih => simp only [SrcCtl.singularCandidateSrcLoop2, loopUp, ih]
+
+/-- the wrist-singular recovery block of `inverse_continuing`: J4, J5, J6 of the model's `singularCandidate` -/
+theorem singularCandidateSrc_eq (p : Params R) (previous now : J6 R) :
+    SrcCtl.singularCandidateSrc p previous now =
+      ((singularCandidate p previous now).j4, (singularCandidate p previous now).j5, (singularCandidate p previous now).j6) := by
+  simp only [SrcCtl.singularCandidateSrc, singularCandidate, singularCandidateSrcLoop_eq, singularCandidateSrcLoop2_eq,
+    areAnglesCloseSrc_eq, normalizeNearSrc_eq, normPi, normPiF]
+  by_cases h : areAnglesClose (now.j5 * p.signs.j5 - p.offsets.j5) 0 = true
+  · simp [h]
+  · have h' : areAnglesClose (now.j5 * p.signs.j5 - p.offsets.j5) 0 = false := by simpa using h
+    simp [h']
+
+/-- the weighted comparator of `sort_by_closeness` compares the model's `sortCost` of its two arguments (robot with limits
+whose sorting weight is not BY_PREV; otherwise the source sorts by the plain distance to previous, checked textually by the
+translator, which is `sortCost` as well) -/
+theorem sortCostPairSrc_eq (k : Opw R) (c : Constraints R) (hc : k.cons = some c) (hw : feq c.sortingWeight byPrev = false)
+    (previous a b : J6 R) :
+    SrcCtl.sortCostPairSrc c.sortingWeight (calculateDistance a previous) (calculateDistance b previous)
+      (calculateDistance a c.centers) (calculateDistance b c.centers) = (k.sortCost previous a, k.sortCost previous b) := by
+  simp only [SrcCtl.sortCostPairSrc, Opw.sortCost, hc, hw]
+  by_cases h : feq c.sortingWeight byConstraints = true
+  · simp [h]
+  · have h' : feq c.sortingWeight byConstraints = false := by simpa using h
+    simp [h']
+
+theorem sortCost_plain (k : Opw R) (previous a : J6 R)
+    (h : k.cons = none ∨ ∃ c, k.cons = some c ∧ feq c.sortingWeight byPrev = true) :
+    k.sortCost previous a = calculateDistance a previous := by
+  rcases h with h | ⟨c, hc, hw⟩
+  · simp [Opw.sortCost, h]
+  · simp [Opw.sortCost, hc, hw]
+
 end Opw
